@@ -120,6 +120,9 @@ func genRec(r *gen.R, op string, validOnly bool) recCase {
 		dt = ref.F64
 	}
 	c.S, c.B, c.I, c.H = r.Range(1, 10), r.Range(1, 4), r.Range(1, 5), r.Range(1, 6)
+	if r.Chance(0.08) { // two-digit batch / hidden sizes
+		c.S, c.B, c.H = r.Range(1, 3), r.Range(1, 12), r.Range(1, 16)
+	}
 	if r.Chance(0.5) {
 		c.S = r.Range(1, 4)
 	}
